@@ -154,6 +154,21 @@ def run_exec_case(case, res, sim=None):
             res.violation("C13", "step-return", "TOY step() returned %r but is_done()=%r" % (ret, sim.is_done()), case)
     if ref.executed_overwritten:
         res.count("self_modified_executed", ref.executed_overwritten)
+    if ref.done and sim.is_done() and (steps + len(case["text"])) % 3 == 0 and not case.get("single_word"):
+        # the same program once more through run(), with nothing read until it has returned: what it leaves is what the
+        # observed step-by-step execution left
+        sim2, _ = setup(case)
+        try:
+            with_alarm(15, sim2.run)
+        except AlarmTimeout:
+            res.violation("C06", "unobserved-run-differs", "run() with nothing attached did not return within 15 s of CPU time; the observed execution finished after %d instructions" % steps, case)
+            return ref
+        res.count("unobserved_runs_compared")
+        f_ = lambda s_: (int(s_.state.accu), int(s_.state.program_counter), real_mem(s_), s_.state.performance_metrics.instruction_count, s_.state.performance_metrics.cycles, s_.state.performance_metrics.branch_count, bool(s_.is_done()))
+        a_, b_ = f_(sim), f_(sim2)
+        if a_ != b_:
+            names = ["accu", "pc", "memory", "instruction count", "cycles", "branch count", "done"]
+            res.violation("C06", "unobserved-run-differs", "run() with nothing attached leaves other %s than the observed step-by-step execution" % [names[i] for i in range(7) if a_[i] != b_[i]], case)
     return ref
 
 
